@@ -48,6 +48,7 @@ Gh == <<status, enqDone, snap, bad>>
 NotifyOne == IF waitset = {} THEN UNCHANGED <<waitset, woken>>
              ELSE \E w \in waitset : waitset' = waitset \ {w} /\ woken' = woken \cup {w}
 
+SelHeld == UNION {Range(tmp[u]) \cup Range(rd[u]) : u \in {v \in Threads : pc[v] # "idle" /\ Op(v).k \in {"processIf", "processUntil"}}}
 Start(t) ==
   /\ pc[t] = "idle" /\ HasOp(t)
   /\ Goto(t, CASE Op(t).k = "enq" -> "e_lock" [] Op(t).k = "dqn_on" -> "d_inc" [] Op(t).k = "dqn_off" -> (IF Fixed("dqn_unlocked") THEN "d_lock" ELSE "d_dec")
@@ -55,7 +56,9 @@ Start(t) ==
                [] Op(t).k = "clear" -> "c_pre" [] Op(t).k = "empty" -> "o_q" [] Op(t).k = "wait" -> "w_lock"
                [] Op(t).k = "processIf" -> "i_pre" [] Op(t).k = "processUntil" -> "i_pre" [] Op(t).k = "peek" -> "k_pre"
                [] Op(t).k = "waitFor" -> "w_lock")
-  /\ snap' = [snap EXCEPT ![t] = IF Op(t).k \in {"empty", "waitFor"} THEN enqDone ELSE @]
+  \* (C11 quantifies over process / processOne / takeEvent / clearEvents: events a processIf / processUntil call holds, to dispatch or to
+  \* put back, are outside the promise - they are in neither place for a while)
+  /\ snap' = [snap EXCEPT ![t] = IF Op(t).k \in {"empty", "waitFor"} THEN enqDone \ SelHeld ELSE @]
   /\ UNCHANGED <<q, emptyCtr, notifyCtr, mtx, waitset, woken, prog, ip, tmp, rd, status, enqDone, bad>>
 
 \* ---- enqueue(e): lock; splice; unlock; doCanProcess() unlocked; notify
@@ -129,7 +132,8 @@ IInc(t) == pc[t] = "i_inc" /\ emptyCtr' = emptyCtr + 1 /\ Goto(t, "i_lock") /\ U
 ILock(t) == pc[t] = "i_lock" /\ mtx = 0 /\ mtx' = t /\ Goto(t, "i_cs") /\ UNCHANGED <<q, emptyCtr, notifyCtr, waitset, woken, prog, ip, tmp, rd>> /\ UNCHANGED Gh
 ICs(t) == /\ pc[t] = "i_cs" /\ mtx = t /\ mtx' = 0 /\ tmp' = [tmp EXCEPT ![t] = q] /\ rd' = [rd EXCEPT ![t] = <<>>] /\ q' = <<>>
           /\ status' = SetStatus(Range(q), "held") /\ Goto(t, "i_loop")
-          /\ UNCHANGED <<emptyCtr, notifyCtr, waitset, woken, prog, ip, enqDone, snap, bad>>
+          /\ snap' = [u \in Threads |-> snap[u] \ Range(q)]           \* no longer covered by the promise of an emptyQueue() in progress
+          /\ UNCHANGED <<emptyCtr, notifyCtr, waitset, woken, prog, ip, enqDone, bad>>
 ILoop(t) == /\ pc[t] = "i_loop"
             /\ IF tmp[t] = <<>> THEN Goto(t, IF rd[t] = <<>> THEN "i_dec" ELSE "i_pblock") /\ UNCHANGED <<tmp, rd, status, bad>>
                ELSE LET e == Head(tmp[t]) IN
